@@ -360,6 +360,7 @@ func (P) Generate(g *core.Gen) {
 	genSigopExact(g)
 	genMaturityEdge(g)
 	genConsensusWeight(g)
+	genSeqLocks(g)
 }
 
 func genIndependent(g *core.Gen) {
@@ -1114,5 +1115,88 @@ func genConsensusWeight(g *core.Gen) {
 		}
 		s = pg.finish(true)
 		g.Case("consensus-weight", true, s.line())
+	}
+}
+
+// genSeqLocks: BIP68.  Version-2 transactions with relative locks in blocks
+// and in 512-second units at one below / at / one above what the chain
+// satisfies, the disable bit, version 1 with the same sequences, children of
+// pool parents with a relative lock of 0 and 1; with CSV active and inactive.
+// The generator never looks at sequence locks: with the stub source an unmet
+// lock must make the final self-check refuse the template; the real pool only
+// admits met ones.
+func genSeqLocks(g *core.Gen) {
+	for c := 0; c < g.N(60, 400); c++ {
+		world := 0
+		if c%5 == 4 {
+			world = 1
+		}
+		pg := newPoolGen(g.R, world)
+		real := c%3 == 2
+		if real {
+			pg.s.src = "pool"
+		}
+		if g.R.Chance(1, 4) {
+			f := worldBlocks - 1 - g.R.Intn(4)
+			pg.setReorg(f, worldBlocks-f+1)
+		}
+		n := 1 + g.R.Intn(4)
+		if c%4 == 0 {
+			n = 1
+		}
+		for i := 0; i < n; i++ {
+			k := pg.pick(func(u utxo) bool { return pg.spendable(u) && !u.cb && (u.kind == 'T' || u.kind == 'K' || u.kind == 'S') })
+			if k < 0 {
+				continue
+			}
+			r := pg.ref(k)
+			u := pg.w.catalog[k]
+			r.hasSeq = true
+			age := int64(pg.s.nextH) - int64(u.height) // a block lock of n is met iff n <= age
+			met := true
+			switch g.R.Intn(6) {
+			case 0, 1: // blocks
+				d := g.R.Range(-1, 1)
+				if real && d > 0 {
+					d = 0
+				}
+				r.seq = uint32(age + d)
+				met = d <= 0
+			case 2, 3: // seconds
+				r.mtpPrev = pg.s.mtpAt(int(u.height) - 1)
+				room := (pg.s.mtp - r.mtpPrev) / 512 // a time lock of n is met iff 512 n <= mtp - mtpPrev
+				d := g.R.Range(-1, 1)
+				if real && d > 0 {
+					d = 0
+				}
+				if room+d < 0 {
+					d = 0
+				}
+				r.seq = uint32(room+d) | 1<<22
+				met = d <= 0
+			case 4: // disabled
+				r.seq = 1<<31 | uint32(g.R.Intn(65536)) | uint32(g.R.Intn(2))<<22
+			case 5: // no lock at all
+				r.seq = uint32(g.R.Pick(0, 0xfffffffe, 0xffffffff))
+			}
+			_ = met
+			j := pg.add([]inRef{r}, pg.randKinds(2), g.R.Range(1000, 50000))
+			pg.s.txs[j].ver = int32(g.R.Pick(2, 2, 2, 1))
+			pg.s.txs[j].allMax = r.seq == 0xffffffff
+			if g.R.Chance(1, 3) { // a child with a relative lock on its unconfirmed parent
+				cs := uint32(g.R.Pick(0, 1, 1<<22, 1<<22|1, 1<<31|5))
+				if real && (cs == 1 || cs == 1<<22|1) {
+					cs = 0
+				}
+				cj := pg.add([]inRef{{kind: 'p', k: j, idx: 0, hasSeq: true, seq: cs}}, []byte{'T', 'T'}, g.R.Range(1000, 50000))
+				pg.s.txs[cj].ver = 2
+				pg.s.txs[cj].allMax = false
+			}
+		}
+		s := pg.finish(real == false)
+		if real && !keysDistinct(s) {
+			continue
+		}
+		g.Case("seq-locks", len(s.txs) > 0, s.line())
 	}
 }
